@@ -2193,6 +2193,30 @@ def m_binary_search_by(ex, a, m):
     if c == 'Equal': return ok(Int(base, 'usize'))
     return err(Int(base + (1 if c == 'Less' else 0), 'usize'))
 
+@model_rx(r'^(?:std::ops::|core::ops::)?(?:range::)?(Range|RangeInclusive|RangeFrom|RangeTo|RangeToInclusive)::(new|contains|start|end|is_empty)$')
+def m_range_api(ex, a, m):
+    ty, op = m.group(1), m.group(2)
+    if op == 'new': return Agg('struct', 'RangeInclusive', None, [Cell(a[0]), Cell(a[1])])
+    r = deref_all(a[0]) if isinstance(a[0], Ptr) else a[0]
+    if not isinstance(r, Agg): raise Unsupported(f'{ty}::{op} on {r!r}')
+    lo = r.fields[0].v if ty in ('Range', 'RangeInclusive', 'RangeFrom') else None
+    hi = r.fields[-1].v if ty in ('Range', 'RangeInclusive', 'RangeTo', 'RangeToInclusive') else None
+    if op == 'start': return Ptr(r.fields[0], 'ref')
+    if op == 'end': return Ptr(r.fields[-1], 'ref')
+    incl = ty in ('RangeInclusive', 'RangeToInclusive')
+    def le(x, y, strict):
+        cx, cy = x.concrete(), y.concrete()
+        if cx is not None and cy is not None: return z3.BoolVal(cx < cy if strict else cx <= cy)
+        if x.signed: return (x.bv < y.bv) if strict else (x.bv <= y.bv)
+        return z3.ULT(x.bv, y.bv) if strict else z3.ULE(x.bv, y.bv)
+    if op == 'is_empty': return Bool(z3.simplify(z3.Not(le(lo, hi, not incl))))
+    x = deref_all(a[1]) if isinstance(a[1], Ptr) else a[1]
+    if isinstance(x, F64) or not isinstance(x, Int): raise Unsupported(f'{ty}::contains of a non-integer')
+    cs = []
+    if lo is not None: cs.append(le(lo, x, False))
+    if hi is not None: cs.append(le(x, hi, not incl))
+    return Bool(z3.simplify(z3.And(*cs)))
+
 # ------------------------------------------------------------------------------------------ serde_json::Value inspection API
 @model_rx(r'^(?:serde_json::)?(?:value::)?Value::(is_null|is_boolean|is_number|is_string|is_array|is_object|is_i64|is_u64|is_f64|as_null|as_bool|as_str|as_array|as_object|as_array_mut|as_object_mut|as_i64|as_u64|as_f64|as_number)$')
 def m_value_api(ex, a, m):
